@@ -122,3 +122,46 @@ Section ExecConeAmend.
       a_ran proj (resync_a proj y w) (sid s) ->
       exec_cause_a proj y (resync_a proj y w) (build_world_a run amend fails true proj w y) s.
 End ExecConeAmend.
+
+(* ------------------------------------------------------------------------------------------ *)
+(* Correspondence checker for the cone rebuilds of C04 (harness/c04_e3.py, engine_term)         *)
+(* ------------------------------------------------------------------------------------------ *)
+(* the commands of the E3 projects: an absorber writes a constant whatever it reads, every other
+   step writes a value that depends on everything it read (mix_run) *)
+Definition absorb_run (consts : list N) (id : N) (ins envs : list (option N)) (p : N) : N :=
+  if memN id consts then 7 + p else mix_run id ins envs p.
+
+(* one observed build of the restart flavour: sources, environment, the steps the real director
+   EXECUTED, the steps it checked and skipped, and for every output whether its content differs
+   from the one before the build *)
+Definition cone_phase := (list (N * N) * list (N * N) * list N * list N * list (N * bool))%type.
+Definition set_eqb (a b : list N) : bool :=
+  forallb (fun x => memN x b) a && forallb (fun x => memN x a) b.
+
+(* the model executes exactly the observed steps, checks and skips only steps that were observed
+   to be checked and skipped, and changes exactly the outputs that changed *)
+Fixpoint check_cone_hist (run : N -> list (option N) -> list (option N) -> N -> N)
+         (proj : project) (y : sys) (phases : list cone_phase) : bool :=
+  match phases with
+  | [] => true
+  | (src, env, eran, eskip, echg) :: rest =>
+    let y1 := resync proj y (src_of src, src_of env) in
+    let y2 := build run proj y1 in
+    let log := build_log run proj proj y1 in
+    set_eqb (map fst (filter snd log)) eran &&
+    forallb (fun x => memN x eskip) (map fst (filter (fun x => negb (snd x)) log)) &&
+    forallb (fun x => Bool.eqb (negb (oN_eqb (fs y2 (fst x)) (fs y (fst x)))) (snd x)) echg &&
+    check_cone_hist run proj y2 rest
+  end.
+(* diagnostics: what the model did per build (log, which of the listed outputs changed) *)
+Fixpoint trace_cone_hist (run : N -> list (option N) -> list (option N) -> N -> N)
+         (proj : project) (y : sys) (phases : list cone_phase) : list (list (N * bool) * list (N * bool)) :=
+  match phases with
+  | [] => []
+  | (src, env, _, _, echg) :: rest =>
+    let y1 := resync proj y (src_of src, src_of env) in
+    let y2 := build run proj y1 in
+    (build_log run proj proj y1,
+     map (fun x => (fst x, negb (oN_eqb (fs y2 (fst x)) (fs y (fst x))))) echg)
+      :: trace_cone_hist run proj y2 rest
+  end.
